@@ -3,7 +3,8 @@
    ANY number of threads (closers, adders, reporters, copy loops, Start calls) and ANY schedule (list of thread indices).
    Tunnel.Close and reportTrafficStats are stated for the REPAIRED code (fixes/C16-tunnel-close-cas-loop.diff,
    fixes/C16-bridge-traffic-report-mutex.diff); the pinned code is refuted by witness schedules.
-   "No goroutine or timer remains" and "no panic" are runtime facts checked by the harness oracle only (partial). *)
+   StreamProcessor is stated for the repaired code of commit cedd5da (onClose keeps reader / writer), pinned code refuted.
+   "No goroutine or timer remains" and "no panic" of the real runtime are checked by the harness oracle only (partial). *)
 From TX Require Import Model.Shutdown Proofs.Shutdown Proofs.SideC16 Gen.C16.
 From Coq Require Import ZArith.
 
@@ -114,37 +115,60 @@ Theorem C16_pinned_traffic_negative_delta_refuted :
 Proof. exact pinned_traffic_negative_delta_refuted. Qed.
 Print Assumptions C16_pinned_traffic_negative_delta_refuted.
 
-(* (4) ops_after_close_fail_cleanly — StreamProcessor: a read operation that has not yet taken the read lock when the
-   processor is closed never reaches the reader, whatever else runs: it waits or has returned an error (never success,
-   never a nil-reader call); and the underlying reader is closed at most once for any number of closers. *)
+(* (4) ops_after_close_fail_cleanly — StreamProcessor (Model pstep; `true` = the repaired code of commit cedd5da: onClose
+   closes reader / writer but keeps the fields; `false` = the pinned code, which also nils them without the locks).
+
+   Full statement, repaired code: for ANY closers and read operations and ANY schedule — operations concurrent with Close
+   included — no operation ever calls a nil reader: the panic counter stays 0 and no thread is in the panicked state
+   (every operation is waiting for a lock, running, or has returned ok / an error). *)
+Definition C16_full_statement_stream (fixed : bool) : Prop :=
+  forall (reads : nat) (ts : list ppc) (sched : list nat),
+  forallb p_initial ts = true ->
+  let s := run _ _ (pstep fixed reads) (pinit, ts) sched in
+  p_panics (fst s) = 0 /\ Forall (fun t => t <> OPanicked) (snd s).
+
+Theorem C16_ops_concurrent_with_close_never_crash : C16_full_statement_stream true.
+Proof. intros reads ts sched H. exact (ops_concurrent_with_close_never_crash reads ts sched H). Qed.
+Print Assumptions C16_ops_concurrent_with_close_never_crash.
+
+(* both variants: a read operation that has not yet taken the read lock when the processor is closed never reaches the
+   reader, whatever else runs: it waits or has returned an error (never success, never a nil-reader call) *)
 Theorem C16_ops_after_close_fail_cleanly :
-  forall (reads j : nat) (sh : psh) (ls : list ppc) (sched : list nat),
+  forall (fixed : bool) (reads j : nat) (sh : psh) (ls : list ppc) (sched : list nat),
   p_closed sh = true -> nth_error ls j = Some OStart ->
-  let s := run _ _ (pstep reads) (sh, ls) sched in
+  let s := run _ _ (pstep fixed reads) (sh, ls) sched in
   nth_error (snd s) j = Some OStart \/ nth_error (snd s) j = Some OHaveLock \/ nth_error (snd s) j = Some (ORet false).
-Proof. intros reads j sh ls sched H1 H2. exact (ops_after_close_fail_cleanly reads j sh ls sched H1 H2). Qed.
+Proof. intros fixed reads j sh ls sched H1 H2. exact (ops_after_close_fail_cleanly fixed reads j sh ls sched H1 H2). Qed.
 Print Assumptions C16_ops_after_close_fail_cleanly.
 
+(* both variants: the underlying reader is closed at most once for any number of closers and operations *)
 Theorem C16_reader_closed_at_most_once :
-  forall (reads : nat) (ts : list ppc) (sched : list nat),
-  let s := run _ _ (pstep reads) (pinit, ts) sched in p_rclose (fst s) <= 1.
-Proof. intros reads ts sched. exact (reader_closed_at_most_once reads ts sched). Qed.
+  forall (fixed : bool) (reads : nat) (ts : list ppc) (sched : list nat),
+  forallb p_initial ts = true ->
+  let s := run _ _ (pstep fixed reads) (pinit, ts) sched in p_rclose (fst s) <= 1.
+Proof. intros fixed reads ts sched H. exact (reader_closed_at_most_once fixed reads ts sched H). Qed.
 Print Assumptions C16_reader_closed_at_most_once.
 
-(* the full statement "operations fail cleanly" does NOT extend to an operation already past its closed-check when Close
-   runs: onClose nils ps.reader without the read lock, and the operation's next reader call is a nil-interface call
-   (known finding stream-op-during-close-panic) *)
-Definition C16_full_statement_stream : Prop :=
-  forall reads ts sched, p_panics (fst (run _ _ (pstep reads) (pinit, ts) sched)) = 0.
+(* the schedule that crashes the pinned code (operation past its closed-check, Close runs to completion, next reader call)
+   ends with a clean error and a released read lock in the repaired code *)
+Theorem C16_read_concurrent_with_close_returns_error :
+  let s := run _ _ (pstep true 2) (pinit, [OStart; PClose]) ([0;0;0;0] ++ repeat 1 5 ++ [0]) in
+  p_panics (fst s) = 0 /\ nth_error (snd s) 0 = Some (ORet false) /\ p_rlock (fst s) = false.
+Proof. exact read_concurrent_with_close_fixed_returns_error. Qed.
+Print Assumptions C16_read_concurrent_with_close_returns_error.
+
+(* the pinned code violates the full statement: onClose nils ps.reader without the read lock, and the operation's next
+   reader call is a nil-interface call (repaired by cedd5da; a revert is caught by the gated replay stream_gate) *)
 Theorem C16_read_concurrent_with_close_refuted :
-  exists sched, p_panics (fst (run _ _ (pstep 2) (pinit, [OStart; PClose]) sched)) = 1.
+  exists sched, p_panics (fst (run _ _ (pstep false 2) (pinit, [OStart; PClose]) sched)) = 1.
 Proof. exact read_concurrent_with_close_panics_refuted. Qed.
 Print Assumptions C16_read_concurrent_with_close_refuted.
 
-(* non-vacuity: concrete thread lists satisfy the hypotheses of (1), (2), (3) *)
+(* non-vacuity: concrete thread lists satisfy the hypotheses of (1), (2), (3), (4) *)
 Theorem C16_premises_satisfiable :
   forallb d_initial [DStart; DStart; AAdd {| h_id := 7; h_fail := true |}; DStart] = true /\
   forallb t_initial [ {| t_notify := true; t_pc := TLoad |}; {| t_notify := false; t_pc := TLoad |}; {| t_notify := true; t_pc := TStartCas |} ] = true /\
-  forallb r_initial [CAdd [100%Z; 0%Z; 5%Z]; RLock; RLock; RLock] = true.
-Proof. exact (conj eq_refl (conj eq_refl eq_refl)). Qed.
+  forallb r_initial [CAdd [100%Z; 0%Z; 5%Z]; RLock; RLock; RLock] = true /\
+  forallb p_initial [PClose; OStart; PClose; OStart; OStart] = true.
+Proof. exact (conj eq_refl (conj eq_refl (conj eq_refl eq_refl))). Qed.
 Print Assumptions C16_premises_satisfiable.
